@@ -9,10 +9,12 @@ recovers into an error and an empty result: the model records it in `bad`.
 
 Deviations of the Go code from property C04 that the model carries on purpose (known findings, see
 /verif/known_findings.json):
-* `alignMap` writes the comma after a member when a later column exists, not when a later MEMBER
+* `alignMap` writes the comma after a member when a later COLUMN exists, not when a later MEMBER
   exists: a row that lacks its last column(s) ends in `, }` (C04-pretty-align-comma).
-* `build*` marks empty arrays and maps as `skip` under OmitNil alone, and maps whose members were all
-  skipped as `skip` too (C04-pretty-omit).
+* a table column that holds an array in one row and a map in another is filed by key but walked
+  by position: members are lost (C04-pretty-align-mixed).
+(The `skip` marks follow the options since fix aa799cb: nil under OmitNil; empty string, slice, map
+under OmitEmpty.)
 
 `sort.Slice` in `update*Table` is modelled by a stable insertion sort (what the library runs for at
 most 12 elements); for tables whose keys are all distinct — every table whose rows have one kind —
@@ -28,6 +30,10 @@ structure POpts where
   omitEmpty : Bool := false
   htmlUnsafe : Bool := true
   deriving Inhabited
+
+/-- the `oj` options with the same meaning: `pretty` always sorts -/
+def ojOptsOf (p : POpts) : Opts :=
+  { sort := true, omitNil := p.omitNil, omitEmpty := p.omitEmpty, htmlUnsafe := p.htmlUnsafe }
 
 inductive PNode where
   | leaf (kind : UInt8) (buf : Bytes) (skip : Bool)
@@ -95,10 +101,10 @@ def build (o : POpts) (ord : Kvs → Kvs) : Nat → JV → PNode
     | .str x => .leaf Gen.Pretty.strNode (jsonString x (!o.htmlUnsafe)) (o.omitEmpty && x.length = 0)
     | .arr xs =>
       let ms := xs.map (build o ord f)
-      .arr ms (arrSize ms 0 2) (arrDepth ms 0) ((o.omitNil || o.omitEmpty) && xs.length = 0)
+      .arr ms (arrSize ms 0 2) (arrDepth ms 0) (o.omitEmpty && xs.length = 0)
     | .obj kvs =>
       let r := buildMembers o (build o ord f) (sortKvs (ord kvs)) [] 2 0
-      .map r.1 r.2.1 r.2.2 ((o.omitNil || o.omitEmpty) && r.1.length = 0)
+      .map r.1 r.2.1 r.2.2 (o.omitEmpty && kvs.length = 0)
 
 /-! ## node.go: alignment tables -/
 
